@@ -388,7 +388,17 @@ def generate(rng, tier):
         elif r < 9:
             o = K8.gen_grid(rng)
             names = ["zc", "zo", "x", "t", "Z", o["da_name"], o["td_name"], o["tname"]]
-            cases.append({"kind": "transform", "rho": make_rho(rng, names), "orig": o})
+            rho = make_rho(rng, names)
+            if rng.random() < 0.6:
+                # one of the user's dimensions is called like a temporary name the package uses internally
+                k = rng.choice(["zc", "zo", "zo", "x", "t", "tname"])
+                k = o["tname"] if k == "tname" else k
+                tmp = rng.choice(["temp_unique", "temp_dim_target", "_temp_unique", "remapped"])
+                for other in rho:
+                    if rho[other] == tmp:
+                        rho[other] = rho[k]
+                rho[k] = tmp
+            cases.append({"kind": "transform", "rho": rho, "orig": o})
         else:
             w = rng.choice(["signature", "comodo", "metrics", "overlap_ufunc"])
             if w == "signature":
@@ -422,6 +432,24 @@ def generate(rng, tier):
                      "as_str": rng.random() < 0.5}
                 rho = make_rho(rng, ["X", "Y", "xc", "yc", "xl", "yl", "dx", "dy", "area", "temp"])
             cases.append({"kind": "other", "rho": rho, "orig": o})
+    # a fixed pattern at every seed: every temporary dimension name the transform code uses internally, given
+    # to every kind of user dimension in turn, for a linear and for a conservative transform with target_data
+    # on the cell bounds
+    for tmp in ("temp_unique", "temp_dim_target", "remapped"):
+        for role in ("zc", "zo", "x", "t", "tname"):
+            for want in ("linear", "conservative"):
+                for _try in range(400):
+                    o = K8.gen_grid(rng)
+                    if o["method"] == want and (want == "linear" or any(d == "zo" for d, _ in o["tdims"])) \
+                            and o["has_outer"] and (role != "t" or any(d == "t" for d, _ in o["dims"])) \
+                            and (role != "tname" or o["target_kind"] == "arr"):
+                        break
+                else:
+                    continue
+                names = ["zc", "zo", "x", "t", "Z", o["da_name"], o["td_name"], o["tname"]]
+                rho = make_rho(rng, names, avoid=(tmp,))
+                rho[o["tname"] if role == "tname" else role] = tmp
+                cases.append({"kind": "transform", "rho": rho, "orig": o})
     return cases
 
 
